@@ -15,7 +15,7 @@ import (
 
 var atomText = map[string]string{
 	"a": "a", "bj": "b.json", "esc": "e s", "uni": "ué", "pct": "p%q", "root": "root.json", "d1": "d1", "d2": "d2",
-	"h1": "h1.example", "h2": "h2.example", "p": "p", ".": ".", "..": "..",
+	"h1": "h1.example", "h2": "h2.example", "h443": "h1.example:443", "h80": "h1.example:80", "p": "p", ".": ".", "..": "..",
 }
 var textAtom = func() map[string]string {
 	m := map[string]string{}
